@@ -39,15 +39,19 @@ def pivot():
             U("Red"), U("DarkBlue", fields=[Field("u8")]), U("Gr", serialize=["g", "green"], fields=[Field("bool", name="b")], named=True),
             U("Ts", to_string="tee"), U("Off", disabled=True),
         ], prefix=pre, serialize_all="snake_case", note="prefix=%r on every derive incl. VariantNames / IntoStaticStr" % pre))
+    S.append(EnumSpec("PrefixClash", [U("Read", to_string="read"), U("Re"), U("Child", serialize=["ns::child", "c"], fields=[Field("u8")]), U("Plain")],
+                      prefix="re", note="canonical names that themselves START with the prefix (it is still prepended)"))
+    S.append(EnumSpec("EmptyOnly", [U("Dimensionless", serialize=[""]), U("Both", serialize=[" ", "both"], fields=[Field("u8")]), U("Unit")], prefix="u:",
+                      note="a variant whose only spelling is the empty string"))
     S.append(EnumSpec("ConstInto", [U("Aa"), U("BbCc", serialize=["b", "bbcc"]), U("Dd", fields=[Field("u8")])], const_into_str=True, prefix="k.",
                       serialize_all="SCREAMING-KEBAB-CASE", note="const_into_str + prefix + style"))
     S.append(EnumSpec("Gen", [U("One", fields=[Field("T")]), U("TwoWords"), U("Three", fields=[Field("T", name="t")], named=True, serialize=["3", "three"])],
                       generics=GEN, ty_args="<u8>", subst={"T": "u8"}, serialize_all="Train-Case", note="generic enum"))
     S.append(EnumSpec("WithSpecial", [U("A", fields=[Field("String")], default=True), U("B", to_string="x{{y}}"), U("C", serialize=["c", "cc"])],
                       note="default / escaped-brace variants next to ordinary ones (VARIANTS still lists every declared variant; placeholders are C17's)"))
-    for st in ["camelCase", "PascalCase", "kebab-case", "lowercase", "UPPERCASE", "title_case", "mixed_case", "SCREAMING_SNAKE_CASE"]:
+    for st in casing.DOCUMENTED_STYLES:
         S.append(EnumSpec("St" + "".join(ch for ch in st if ch.isalnum()), [U("DarkBlack"), U("HTTPServer", fields=[Field("u8")]), U("Io2Go"),
-                                                                            U("KeepMe", serialize=["KeepMe"])],
+                                                                            U("Utf8Text"), U("KeepMe", serialize=["KeepMe"])],
                           serialize_all=st, note="style %s" % st))
     return S
 
